@@ -248,8 +248,45 @@ func c04(r *gen.Rng, tier string, shard, nshard int) {
 		t := newT("C04")
 		t.op("tree reset", "ok")
 		k := 1 + r.Intn(3)
+		var stored []string
 		for j := 0; j < k; j++ {
-			t.mut("add", filters[r.Intn(len(filters))], j+1)
+			f := filters[r.Intn(len(filters))]
+			stored = append(stored, f)
+			t.mut("add", f, j+1)
+		}
+		// the set was not always what it is now: entries that came and went (a level-wise prefix of a stored filter, a
+		// filter below one, something unrelated; removed again, emptied, or emptied without ever having been stored)
+		for j, c := 0, r.Intn(3); j < c; j++ {
+			f := stored[r.Intn(len(stored))]
+			switch r.Intn(3) {
+			case 0:
+				if ls := strings.Split(f, "/"); len(ls) > 1 {
+					f = strings.Join(ls[:1+r.Intn(len(ls)-1)], "/")
+				}
+			case 1:
+				f = filters[r.Intn(len(filters))]
+			}
+			switch r.Intn(3) {
+			case 0:
+				t.mut("add", f, 90+j)
+				t.mut("remove", f, 90+j)
+			case 1:
+				t.mut("add", f, 90+j)
+				t.mut("empty", f, 0)
+				for q, g := range stored {
+					if g == f {
+						t.mut("add", g, q+1) // (Empty took the stored ones along: put them back)
+					}
+				}
+			default:
+				keep := false
+				for _, g := range stored {
+					keep = keep || g == f
+				}
+				if !keep {
+					t.mut("empty", f, 0)
+				}
+			}
 		}
 		for j := 0; j < 25; j++ {
 			t.qMatch(names[r.Intn(len(names))])
